@@ -89,6 +89,8 @@ def gen_case(rng):
         "newroot": trees.gen_tree(rng, max_depth=1, max_kids=2, nss=["", "urn:x"], text=text, stress=False) if rng.random() < 0.5 else None,
         "drop": rng.choice([[False, False], [True, False], [False, True], [True, True]]),
         "reuse_options": rng.random() < 0.4,
+        # options that must not influence which node kinds are kept (no external entities, no network in the sources)
+        "other_options": {"resolve_entities": rng.random() < 0.7, "unplugged": rng.random() < 0.4},
     }
     return case
 
@@ -235,13 +237,14 @@ def run_impl(case):
     # parser options
     try:
         c, p = case["drop"]
+        other = case.get("other_options", {})
         if case.get("reuse_options"):
             # one options object, used for another configuration first and reconfigured through its attributes
-            opts = ParserOptions(remove_comments=not c, remove_processing_instructions=not p)
+            opts = ParserOptions(remove_comments=not c, remove_processing_instructions=not p, **other)
             Document(source_xml(case), parser_options=opts)
             opts.remove_comments, opts.remove_processing_instructions = c, p
         else:
-            opts = ParserOptions(remove_comments=c, remove_processing_instructions=p)
+            opts = ParserOptions(remove_comments=c, remove_processing_instructions=p, **other)
         d2 = Document(source_xml(case), parser_options=opts)
         res["dropped"] = observe(d2)
     except Exception as e:  # noqa: BLE001
